@@ -60,7 +60,12 @@ def gen_case(rng, params):
     pieces = g.cut(rng, data)
     ticks = g.schedule(rng, pieces, rng.choice(["zero", "zero", "rand"]))
     ops = []
-    if rng.random() < 0.3:
+    # one case in eight: a read_iter() iteration is started BEFORE anything is registered and goes on afterwards — a
+    # death string registered between two steps of a running iteration is watched from then on
+    running = rng.random() < 0.12
+    if running:
+        ops.append("ri:-:-:1")
+    elif rng.random() < 0.3:
         ops.append(f"read:{rng.randint(1, 3)}:1")   # data seen before registration must not count
     opened = 0
     for i, d in enumerate(dss):
@@ -70,6 +75,8 @@ def gen_case(rng, params):
             ops.append(f"ds+:{d}:{i}"); opened += 1
         if rng.random() < 0.3:
             ops.append(f"read:{rng.randint(1, 4)}:1")
+    if running:
+        ops.append(f"ri:-:-:{rng.randint(1, 4)}")        # … the iteration started above goes on
     for _ in range(rng.randint(1, 6)):
         k = rng.random()
         t = opt(rng.choice([0, 1, 1024]))
